@@ -13,6 +13,8 @@ IMG_CONFIGS = [
     ("ext4_2k_64", ["-t", "ext4", "-b", "2048", "-g", "4096", "-O", "64bit,metadata_csum,^flex_bg", "-I", "512", "-N", "512"], "12M"),
     # meta_bg with three descriptor blocks (48 groups, 16 descriptors per block)
     ("ext4_metabg48", ["-t", "ext4", "-b", "1024", "-g", "256", "-O", "meta_bg,^resize_inode", "-I", "256", "-N", "768"], "12M"),
+    # 128-byte group descriptors: the checksum covers more than struct ext4_group_desc
+    ("ext4_desc128", ["-t", "ext4", "-b", "1024", "-g", "2048", "-O", "64bit,metadata_csum", "-E", "desc_size=128", "-I", "256", "-N", "512"], "8M"),
 ]
 
 
@@ -33,7 +35,13 @@ def _build_image(src, work, name, opts, size, seed, nfiles, img):
         os.unlink(img)
     T = lambda p: os.path.join(src, p)
     env = e2v.tool_env(src, E2FSPROGS_FAKE_TIME="1700000000")
-    rc, out = e2v.sh([T("misc/mke2fs"), "-q", "-F"] + opts + ["-U", "5a5a5a5a-1111-2222-3333-444444444444", "-E", "hash_seed=01234567-89ab-cdef-0123-456789abcdef", img, size], env=env, timeout=120)
+    eopt = "hash_seed=01234567-89ab-cdef-0123-456789abcdef"
+    mopts = list(opts)
+    if "-E" in mopts:       # mke2fs keeps only the last -E
+        j = mopts.index("-E")
+        eopt = mopts[j + 1] + "," + eopt
+        del mopts[j:j + 2]
+    rc, out = e2v.sh([T("misc/mke2fs"), "-q", "-F"] + mopts + ["-U", "5a5a5a5a-1111-2222-3333-444444444444", "-E", eopt, img, size], env=env, timeout=120)
     if rc != 0:
         raise RuntimeError("mke2fs failed for %s: %s" % (name, out[-300:]))
     r = e2v.rng(seed, "imgbuild", name)
@@ -445,7 +453,7 @@ def op_append_block(fs, d, r, keep_csum, which=None):
     return "not applicable"
 
 
-XATTR_VARIANTS = ["size_wrap", "size_wrap_lo", "size_max", "size_block", "offs_end", "offs_header", "name_len", "inum", "refcount0", "no_terminator"]
+XATTR_VARIANTS = ["size_wrap", "size_wrap_lo", "size_max", "size_block", "offs_end", "offs_header", "name_len", "inum", "refcount0", "refcount_hi", "no_terminator"]
 
 
 def fix_xattr_block_csum(fs, d, blk):
@@ -494,7 +502,9 @@ def op_xattr_block(fs, d, r, keep_csum, which=None):
     elif which == "inum":
         struct.pack_into("<I", d, e + 4, r.choice([1, 2, 8, ino, fs.inodes_count, fs.inodes_count + 1, 0xFFFFFFFF]))
     elif which == "refcount0":
-        struct.pack_into("<I", d, a + 4, r.choice([0, 0xFFFFFFFF, 1025]))
+        struct.pack_into("<I", d, a + 4, 0)
+    elif which == "refcount_hi":
+        struct.pack_into("<I", d, a + 4, r.choice([2, 0xFFFFFFFF, 1025]))
     elif which == "no_terminator":
         # fill the rest of the entry table with non-zero words so that no terminator follows
         for x in range(o, bs - 3, 4):
@@ -515,6 +525,8 @@ PAIRS = [
     [(op_bitmap_block, "last")],
     [(op_bitmap_inode, "last"), (op_gd_counts, "last")],
     [(op_bitmap_csum, "bb"), (op_bitmap_csum, "ib")],
+    [(op_xattr_block, "refcount0")],
+    [(op_xattr_block, "refcount_hi")],
 ]
 
 DIRECTED = [(op_append_block, "end"), (op_append_block, "end+1"), (op_block_pointer, "end"), (op_block_pointer, "end+1"), (op_extent_edge, "end"), (op_extent_edge, "end+1"),
